@@ -75,6 +75,9 @@ var (
 		"IsReturn": func(r lexer.Rule) bool {
 			return r == lexer.ReturnRule
 		},
+		"IsElided": func(name string) bool {
+			return len(name) > 0 && unicode.IsLower(rune(name[0]))
+		},
 		"OrderRules": orderRules,
 		"HaveBackrefs": func(def *lexer.StatefulDefinition, state string) bool {
 			for _, rule := range def.Rules()[state] {
